@@ -143,7 +143,7 @@ def _short(v):
 
 
 def _same(a, b, where=""):
-    """Deep equality of what the code under test handed back (dict / list / tuple / array / scalar): same types, same
+    """Deep equality of what the code under test handed back (dict / list / tuple / array / scalar): same container kinds (numbers by value: 30000 == 30000.0), same
     shapes, values compared exactly (NaN == NaN). Returns (ok, why) and never raises, whatever the objects are."""
     try:
         if isinstance(a, dict) and isinstance(b, dict):
@@ -159,7 +159,12 @@ def _same(a, b, where=""):
                 return False, f"{where}{_short(a)} ({type(a).__name__}) != {_short(b)} ({type(b).__name__})"
             ok = bool(np.array_equal(a, b)) or (a.dtype.kind in "fc" and bool(np.array_equal(a, b, equal_nan=True)))
             return ok, "" if ok else f"{where}arrays differ: {_short(a)} != {_short(b)}"
-        if type(a) is not type(b):
+        num = (int, float, np.integer, np.floating)
+        if isinstance(a, num) and isinstance(b, num) and not isinstance(a, bool) and not isinstance(b, bool):
+            # the property speaks of an *equal* dictionary: 30000 and 30000.0 are equal
+            ok = bool(a == b) or (a != a and b != b)
+            return ok, "" if ok else f"{where}{_short(a)} != {_short(b)}"
+        if type(a) is not type(b) and not (isinstance(a, (list, tuple)) and isinstance(b, (list, tuple))):
             return False, f"{where}{_short(a)} ({type(a).__name__}) != {_short(b)} ({type(b).__name__})"
         if isinstance(a, (list, tuple)):
             if len(a) != len(b):
